@@ -71,22 +71,27 @@ def check_c04(scn):
                              f"{tp}: offsets {missing} were never delivered to any member although members {sorted(live)} stayed live "
                              f"until t={snap['t']} (kills {sorted(scn.killed)})")
     # (c) a record delivered again lies at or above the committed offset its (new) owner was given
+    #     "given" = what the group had committed when the member adopted the assignment under which it delivers (ground truth
+    #     of the simulated coordinator at that instant; the member is expected to ask for it), or a later OffsetFetch reply
     first = {}
     given = {}
     for e in scn.ev:
         kind = e[2]
-        if kind == "gr" and e[4] == "OffsetFetch":
+        if kind == "adopt":
+            for tp in e[4]:
+                given[(e[3], tp)] = dict(e[5]).get(tp, -1)
+        elif kind == "gr" and e[4] == "OffsetFetch":
             for tp, off, err in e[5]:
                 if err == 0:
-                    given[(e[3], tp)] = off
+                    given[(e[3], tp)] = max(off, given.get((e[3], tp), -1))
         elif kind == "deliver":
             key = (e[4], e[5])
             if key in first:
                 g = given.get((e[3], e[4]), -1)
                 if g >= 0 and e[5] < g:
                     scn.fail("redelivery", {"what": "redelivered-below-committed"},
-                             f"{e[4]}@{e[5]} delivered again to c{e[3]} at t={e[1]} although it was given committed offset {g} "
-                             f"(first delivery to c{first[key]})")
+                             f"{e[4]}@{e[5]} delivered again to c{e[3]} at t={e[1]} although the group's committed offset was {g} when "
+                             f"it took the partition over (first delivery to c{first[key]})")
             else:
                 first[key] = e[3]
 
